@@ -95,7 +95,9 @@ SCRIPT = textwrap.dedent(
                 kws = [a for a in args if a[0].startswith("kw")]
                 if len(kws) > 1: args = [a for a in args if not a[0].startswith("kw")] + [("kw:a", kws[0][1]), ("kw:b", kws[1][1])][:2]
                 scope = rnd.choice([(), (), ("s1",), ("s1", 2)])
-                self.nodes.append(dict(kind=kind, args=args, stored=(kind == "call" and rnd.random() < 0.5), scope=scope))
+                # a source whose store reports no modified time although it can be read (the LiteralSource(value, None) pattern): always out of date
+                self.nodes.append(dict(kind=kind, args=args, stored=(kind == "call" and rnd.random() < 0.5), scope=scope,
+                                       nomtime=(kind == "source" and not args and rnd.random() < 0.15)))
             if rnd.random() < 0.2 and len(self.nodes) <= 4:
                 # dependencies routed through (chains of) literals: p -> lit -> lit -> c
                 b = len(self.nodes)
@@ -178,7 +180,7 @@ SCRIPT = textwrap.dedent(
             A = max([M[p] for p in ps if M[p] is not None], default=None)
             if i not in stores: stale[i] = False; M[i] = A; continue
             st = stores[i]
-            if not st.has: stale[i] = True; M[i] = None; continue
+            if not st.has or st.mtime is None: stale[i] = True; M[i] = None; continue      # nothing stored / no modified time reported: out of date
             is_src = scn.nodes[i]["kind"] == "source"
             if (A is not None or not is_src) and max([t for t in (st.mtime, A, fresh) if t is not None]) > st.mtime: stale[i] = True; M[i] = None
             else: stale[i] = False; M[i] = st.mtime
@@ -216,7 +218,7 @@ SCRIPT = textwrap.dedent(
                 nd["stored"] = False
         plan, reg, objs, stores = scn.build(rec, with_reg)
         for i, st in stores.items():
-            if scn.nodes[i]["kind"] == "source": st.val, st.has, st.mtime = ("S", i, 0), True, tick()
+            if scn.nodes[i]["kind"] == "source": st.val, st.has, st.mtime = ("S", i, 0), True, (None if scn.nodes[i].get("nomtime") else tick())
         fresh = None
         name = f"case{case}"
         steps = rnd.randrange(1, 6)
@@ -226,7 +228,7 @@ SCRIPT = textwrap.dedent(
             if op == "update":
                 srcs = [i for i in stores if scn.nodes[i]["kind"] == "source"]
                 if srcs:
-                    i = rnd.choice(srcs); stores[i].val = ("S", i, step + 1); stores[i].mtime = tick()
+                    i = rnd.choice(srcs); stores[i].val = ("S", i, step + 1); stores[i].mtime = (None if scn.nodes[i].get("nomtime") else tick())
                 continue
             if op == "delete":
                 sts = [i for i in stores if scn.nodes[i]["kind"] != "source"]
@@ -400,7 +402,7 @@ SCRIPT = textwrap.dedent(
             if on("C15"):
                 pass
             # C05 idempotence
-            has_dep_source = any(nd["kind"] == "source" and nd["args"] for nd in scn.nodes)
+            has_dep_source = any(nd["kind"] == "source" and (nd["args"] or nd.get("nomtime")) for nd in scn.nodes)
             if with_reg and on("C05") and rnd.random() < 0.5 and not has_dep_source:
                 rec.ev.clear()
                 try: uberjob.run(plan, registry=reg, fresh_time=fresh, progress=None, max_workers=mw)
@@ -428,7 +430,7 @@ def replay_for(props, cases=150):
         from ujvc.z3env import REPO_SRC
 
         env = dict(os.environ, PYTHONPATH=REPO_SRC, UJVC_PROBES=",".join(props), UJVC_PROBE_CASES=str(cases))
-        p = subprocess.run(["/venv/bin/python", "-c", SCRIPT], env=env, capture_output=True, text=True, timeout=900)
+        p = __import__('ujvc.units', fromlist=['run_native_p']).run_native_p(["/venv/bin/python", "-c", SCRIPT], env=env, timeout=300)
         out = p.stdout[-3000:] + p.stderr[-1500:]
         harness_bug = "VIOLATED HARNESS" in out
         return {"reproduced": p.returncode == 1 and not harness_bug, "detail": out, "script": SCRIPT,
